@@ -416,6 +416,7 @@ pub enum ChildSrc {
     Ping(PingSource),
     Timer(Timer),
     Gen(Generic<OwnedRaw>),
+    Bad(Generic<BorrowedRaw>),
 }
 
 /// A child of the composite: the real source plus the key it last registered with; a child-level
@@ -458,6 +459,12 @@ impl EventSource for CChild {
                     Ok(PostAction::Continue)
                 })
                 .map_err(|e: std::io::Error| e.into()),
+            ChildSrc::Bad(g) => g
+                .process_events(readiness, token, |rd, _| {
+                    callback(ChildEv::Ready(rd), &mut ());
+                    Ok(PostAction::Continue)
+                })
+                .map_err(|e: std::io::Error| e.into()),
         };
         let forced = match self.sh.child_forced.take() {
             Some((o, c, p)) if o == self.owner && c == self.idx => Some(p),
@@ -483,6 +490,7 @@ impl EventSource for CChild {
             ChildSrc::Ping(p) => p.register(poll, &mut one),
             ChildSrc::Timer(x) => x.register(poll, &mut one),
             ChildSrc::Gen(g) => g.register(poll, &mut one),
+            ChildSrc::Bad(g) => g.register(poll, &mut one),
         };
         if r.is_ok() {
             self.key.set(Some(t.verif_key() as u64));
@@ -501,6 +509,7 @@ impl EventSource for CChild {
             ChildSrc::Ping(p) => p.reregister(poll, &mut one),
             ChildSrc::Timer(x) => x.reregister(poll, &mut one),
             ChildSrc::Gen(g) => g.reregister(poll, &mut one),
+            ChildSrc::Bad(g) => g.reregister(poll, &mut one),
         };
         if r.is_ok() {
             self.key.set(Some(t.verif_key() as u64));
@@ -513,6 +522,7 @@ impl EventSource for CChild {
             ChildSrc::Ping(p) => p.unregister(poll),
             ChildSrc::Timer(x) => x.unregister(poll),
             ChildSrc::Gen(g) => g.unregister(poll),
+            ChildSrc::Bad(g) => g.unregister(poll),
         };
         self.key.set(None);
         r
@@ -692,6 +702,19 @@ pub struct WAsync {
     pub adapter: Option<calloop::io::Async<'static, BorrowedRaw>>,
     pub slot: u8,
     pub fd: RawFd,
+    pub wakes: std::sync::Arc<CountWake>,
+}
+
+/// Waker that only counts.
+#[derive(Default)]
+pub struct CountWake(pub std::sync::atomic::AtomicU64);
+impl std::task::Wake for CountWake {
+    fn wake(self: std::sync::Arc<Self>) {
+        self.0.fetch_add(1, std::sync::atomic::Ordering::SeqCst);
+    }
+    fn wake_by_ref(self: &std::sync::Arc<Self>) {
+        self.0.fetch_add(1, std::sync::atomic::Ordering::SeqCst);
+    }
 }
 
 pub struct Ctx {
@@ -1033,6 +1056,15 @@ impl Ctx {
                             // the harness pokes through its own duplicate: the child's fd may be closed (and its number reused) when a transient child leaves
                             let dup = OwnedRaw(kernel::dup(fd));
                             (ChildSrc::Gen(Generic::new(OwnedRaw(fd), Interest::READ, Mode::Level)), (None, Some(dup)), fd, None)
+                        }
+                        CKind::Bad => {
+                            if self.fdslots[3].is_none() {
+                                let name = std::ffi::CString::new("vh-regular").unwrap();
+                                let m = unsafe { libc::memfd_create(name.as_ptr(), libc::MFD_CLOEXEC) };
+                                self.fdslots[3] = Some((OwnedRaw(m), None));
+                            }
+                            let fd = self.fdslots[3].as_ref().unwrap().0 .0;
+                            (ChildSrc::Bad(Generic::new(BorrowedRaw(fd), Interest::READ, Mode::Level)), (None, None), fd, None)
                         }
                     };
                     let ch = CChild { src, owner: id, idx: i as u8, sh: sh.clone(), key: key.clone() };
@@ -1526,7 +1558,7 @@ impl Ctx {
                 match r {
                     Ok(Ok(a)) => {
                         let idx = self.asyncs.len();
-                        self.asyncs.push(WAsync { adapter: Some(a), slot: slot as u8, fd: raw });
+                        self.asyncs.push(WAsync { adapter: Some(a), slot: slot as u8, fd: raw, wakes: Default::default() });
                         sh.push(Ev::Adapted { a: Some(idx), nonblocking_after: kernel::is_nonblocking(raw) });
                         sh.push(Ev::OpRes(Res::Ok));
                     }
@@ -1555,6 +1587,58 @@ impl Ctx {
                 }));
                 sh.push(Ev::AsyncReleased { a: i, nonblocking_after: kernel::is_nonblocking(fd) });
                 self.finish_unit(r);
+            }
+            Op::AsyncWait { a, write } => {
+                let Some(i) = pick(*a, self.asyncs.len()) else { return };
+                if self.asyncs[i].adapter.is_none() {
+                    return;
+                }
+                let write = *write;
+                sh.push(Ev::Op(ROp::AsyncWait { a: i, write }));
+                let waker = std::task::Waker::from(self.asyncs[i].wakes.clone());
+                let ad = self.asyncs[i].adapter.as_mut().unwrap();
+                let r = catch_unwind(AssertUnwindSafe(move || {
+                    use std::future::Future;
+                    let mut cx = std::task::Context::from_waker(&waker);
+                    if write {
+                        let mut f = ad.writable();
+                        std::pin::Pin::new(&mut f).poll(&mut cx).is_ready()
+                    } else {
+                        let mut f = ad.readable();
+                        std::pin::Pin::new(&mut f).poll(&mut cx).is_ready()
+                    }
+                }));
+                match r {
+                    Ok(ready) => {
+                        sh.push(Ev::AsyncPolled { a: i, ready });
+                        sh.push(Ev::OpRes(Res::Ok));
+                    }
+                    Err(p) => {
+                        self.poisoned = true;
+                        sh.push(Ev::OpRes(panic_res(p)));
+                    }
+                }
+            }
+            Op::AsyncPeerWrite { a, n } => {
+                let Some(i) = pick(*a, self.asyncs.len()) else { return };
+                let slot = self.asyncs[i].slot as usize;
+                let Some((_, Some(peer))) = &self.fdslots[slot] else { return };
+                sh.push(Ev::Op(ROp::AsyncIo { a: i }));
+                let buf = [0x5au8; 8];
+                kernel::raw_write(peer.0, &buf[..(*n as usize % 8) + 1]);
+                sh.push(Ev::OpRes(Res::Ok));
+            }
+            Op::AsyncOwnRead { a } => {
+                let Some(i) = pick(*a, self.asyncs.len()) else { return };
+                let slot = self.asyncs[i].slot as usize;
+                let Some((own, Some(_))) = &self.fdslots[slot] else { return };
+                if !kernel::is_nonblocking(own.0) {
+                    return;
+                }
+                sh.push(Ev::Op(ROp::AsyncIo { a: i }));
+                let mut buf = [0u8; 256];
+                while kernel::raw_read(own.0, &mut buf) > 0 {}
+                sh.push(Ev::OpRes(Res::Ok));
             }
             Op::InsertBad { which } => {
                 if self.srcs.len() >= 48 {
@@ -1599,6 +1683,11 @@ impl Ctx {
 
     /// Ground-truth probes taken right before a dispatch.
     fn pre_dispatch_probes(&mut self) {
+        for (i, a) in self.asyncs.iter().enumerate() {
+            if a.adapter.is_some() {
+                self.sh.push(Ev::AsyncFd { a: i, r: kernel::is_readable(a.fd), w: kernel::is_writable(a.fd) });
+            }
+        }
         for k in 0..self.by_kind[K_GEN].len() {
             let id = self.by_kind[K_GEN][k];
             self.probe_fd(id);
@@ -1676,6 +1765,9 @@ pub fn run_history(case: &HistCase, opts: Opts) -> Vec<Ev> {
                 sh.cur_proc.set(None);
                 ctx.cur_idle = None;
                 ctx.depth = 0;
+                for (i, a) in ctx.asyncs.iter().enumerate() {
+                    sh.push(Ev::AsyncWakes { a: i, n: a.wakes.0.load(std::sync::atomic::Ordering::SeqCst) });
+                }
                 sh.push(Ev::DispEnd { t_ns: sh.now_ns(), res });
                 for id in sh.ret_removed.borrow_mut().drain(..) {
                     ctx.srcs[id].inserted = false;
